@@ -80,11 +80,12 @@ def exc_matches(e, handler_names):
 
 
 class Walker:
-    def __init__(self, func, resolver=None, raises=None, unroll=1, yield_throw=None, node=None):
+    def __init__(self, func, resolver=None, raises=None, unroll=1, yield_throw=None, node=None, noreturn=None):
         """raises(node, func) -> iterable of (excname, origin) for Call/Subscript nodes."""
         self.f = func
         self.R = resolver
         self.raises = raises
+        self.noreturn = noreturn
         self.unroll = unroll
         self.yield_throw = func.is_ctxmgr if yield_throw is None else yield_throw
         self.node = node if node is not None else func.node
@@ -133,13 +134,13 @@ class Walker:
     # ------------------------------------------------------------------
     # expressions: emit call / raising-source events in evaluation order
     # ------------------------------------------------------------------
-    def _expr(self, e, cond=False):
+    def _expr(self, e, cond=False, cur=None):
         """-> list of (events, outcome) for evaluating expression e."""
         if e is None:
             return [([], NORMAL)]
         items = []
         self._collect(e, cond, items)
-        outs = [([], NORMAL)]
+        hctx = cur
         done = []
         cur = []
         for node, c in items:
@@ -156,10 +157,15 @@ class Walker:
             if self.raises is not None:
                 seen = set()
                 for exc, origin in self.raises(node, self.f):
+                    if hctx is not None and origin and origin[0] == "raise" and len(origin) > 4 and origin[4] is None:
+                        # raised (by a callee) while handling another exception: keep the cause
+                        origin = origin[:4] + (hctx[2],)
                     if (exc, origin) in seen:
                         continue
                     seen.add((exc, origin))
                     done.append((cur + [Ev(kind, node, exc, origin, cond=c)], ("raise", exc, node, origin)))
+            if kind == "call" and self.noreturn is not None and self.noreturn(node, self.f):
+                return done  # the callee never returns normally
             cur = cur + [Ev(kind, node, "ok", cond=c)]
         done.append((cur, NORMAL))
         return done
@@ -214,10 +220,10 @@ class Walker:
     # ------------------------------------------------------------------
     # conditions: decompose and / or / not into atomic assumes
     # ------------------------------------------------------------------
-    def _cond(self, test, want):
+    def _cond(self, test, want, cur=None):
         """-> list of (events, outcome) on which `test` evaluates to `want`."""
         if isinstance(test, ast.UnaryOp) and isinstance(test.op, ast.Not):
-            return self._cond(test.operand, not want)
+            return self._cond(test.operand, not want, cur)
         if isinstance(test, ast.BoolOp):
             is_and = isinstance(test.op, ast.And)
             vals = test.values
@@ -225,17 +231,17 @@ class Walker:
                 # all operands evaluate to `want`
                 outs = [([], NORMAL)]
                 for v in vals:
-                    outs = self._seq(outs, lambda v=v: self._cond(v, want))
+                    outs = self._seq(outs, lambda v=v: self._cond(v, want, cur))
                 return outs
             # some operand is the first to evaluate to `want`; earlier ones to `not want`
             res = []
             pre = [([], NORMAL)]
             for v in vals:
-                res.extend(self._seq(pre, lambda v=v: self._cond(v, want)))
+                res.extend(self._seq(pre, lambda v=v: self._cond(v, want, cur)))
                 # raising outcomes of evaluating v are already in res: keep normal ones only
-                pre = [p for p in self._seq(pre, lambda v=v: self._cond(v, not want)) if p[1][0] == "normal"]
+                pre = [p for p in self._seq(pre, lambda v=v: self._cond(v, not want, cur)) if p[1][0] == "normal"]
             return res
-        outs = self._expr(test)
+        outs = self._expr(test, cur=cur)
         return self._seq(outs, lambda: [([Ev("assume", test, want)], NORMAL)])
 
     # ------------------------------------------------------------------
@@ -245,14 +251,14 @@ class Walker:
             raise Inconclusive("%s: statement kind %s not modelled" % (self.f.loc(s), type(s).__name__))
         return m(s, cur)
 
-    def _simple(self, s, exprs):
+    def _simple(self, s, exprs, cur=None):
         outs = [([], NORMAL)]
         for e in exprs:
-            outs = self._seq(outs, lambda e=e: self._expr(e))
+            outs = self._seq(outs, lambda e=e: self._expr(e, cur=cur))
         return self._seq(outs, lambda: [([Ev("stmt", s)], NORMAL)])
 
     def _s_Expr(self, s, cur):
-        return self._simple(s, [s.value])
+        return self._simple(s, [s.value], cur)
 
     def _s_Pass(self, s, cur):
         return [([Ev("stmt", s)], NORMAL)]
@@ -276,7 +282,7 @@ class Walker:
         tgt_exprs = []
         for t in s.targets:
             tgt_exprs.extend(self._target_exprs(t))
-        return self._simple(s, [s.value] + tgt_exprs)
+        return self._simple(s, [s.value] + tgt_exprs, cur)
 
     def _target_exprs(self, t):
         if isinstance(t, ast.Subscript):
@@ -295,10 +301,10 @@ class Walker:
     def _s_AnnAssign(self, s, cur):
         if s.value is None:
             return [([Ev("stmt", s)], NORMAL)]
-        return self._simple(s, [s.value] + self._target_exprs(s.target))
+        return self._simple(s, [s.value] + self._target_exprs(s.target), cur)
 
     def _s_AugAssign(self, s, cur):
-        return self._simple(s, self._target_exprs(s.target) + [s.value])
+        return self._simple(s, self._target_exprs(s.target) + [s.value], cur)
 
     def _s_Delete(self, s, cur):
         ex = []
@@ -306,7 +312,7 @@ class Walker:
             ex.extend(self._target_exprs(t))
         outs = [([], NORMAL)]
         for e in ex:
-            outs = self._seq(outs, lambda e=e: self._expr(e))
+            outs = self._seq(outs, lambda e=e: self._expr(e, cur=cur))
         for t in s.targets:
             if isinstance(t, ast.Subscript):
                 outs = self._seq(outs, lambda t=t: self._src(t))
@@ -324,33 +330,33 @@ class Walker:
         done.append(([Ev("src", node, "ok")], NORMAL))
         return done
 
-    def _cond_false_only(self, test):
+    def _cond_false_only(self, test, cur=None):
         """Normal outcomes on which test is false (raising outcomes of the
         evaluation are reported once, on the true side)."""
-        return [p for p in self._cond(test, False) if p[1][0] == "normal"]
+        return [p for p in self._cond(test, False, cur) if p[1][0] == "normal"]
 
     def _s_Assert(self, s, cur):
-        ok = self._cond(s.test, True)
-        bad = self._cond_false_only(s.test)
+        ok = self._cond(s.test, True, cur)
+        bad = self._cond_false_only(s.test, cur)
         origin = ("assert", self.f.qual, s.lineno)
         bad = self._seq(bad, lambda: [([Ev("raise", s, "AssertionError", origin)], ("raise", "AssertionError", s, origin))])
         return ok + bad
 
     def _fork_ifexp(self, s, ife, mk, cur):
-        t = self._seq(self._cond(ife.test, True), lambda: self._stmt(mk(ife.body), cur))
-        f = self._seq(self._cond_false_only(ife.test), lambda: self._stmt(mk(ife.orelse), cur))
+        t = self._seq(self._cond(ife.test, True, cur), lambda: self._stmt(mk(ife.body), cur))
+        f = self._seq(self._cond_false_only(ife.test, cur), lambda: self._stmt(mk(ife.orelse), cur))
         return t + f
 
     def _s_Return(self, s, cur):
         if isinstance(s.value, ast.IfExp):
             return self._fork_ifexp(s, s.value, lambda v: ast.copy_location(ast.Return(value=v), s), cur)
-        outs = self._expr(s.value)
+        outs = self._expr(s.value, cur=cur)
         return self._seq(outs, lambda: [([Ev("return", s)], ("return", s))])
 
     def _s_Raise(self, s, cur):
-        outs = self._expr(s.exc)
+        outs = self._expr(s.exc, cur=cur)
         if s.cause is not None:
-            outs = self._seq(outs, lambda: self._expr(s.cause))
+            outs = self._seq(outs, lambda: self._expr(s.cause, cur=cur))
         if s.exc is None:
             if cur is None:
                 raise Inconclusive("%s: bare raise outside handler" % self.f.loc(s))
@@ -363,8 +369,8 @@ class Walker:
         return self._seq(outs, lambda: [([Ev("raise", s, exc, origin)], ("raise", exc, s, origin))])
 
     def _s_If(self, s, cur):
-        t = self._seq(self._cond(s.test, True), lambda: self._block(s.body, cur))
-        f = self._seq(self._cond_false_only(s.test), lambda: self._block(s.orelse, cur))
+        t = self._seq(self._cond(s.test, True, cur), lambda: self._block(s.body, cur))
+        f = self._seq(self._cond_false_only(s.test, cur), lambda: self._block(s.orelse, cur))
         return t + f
 
     def _loop_tail(self, outs):
@@ -380,7 +386,7 @@ class Walker:
         def iteration(k):
             res = []
             if not const_true:
-                ex = self._cond(s.test, False) if k >= self.unroll else self._cond_false_only(s.test)
+                ex = self._cond(s.test, False, cur) if k >= self.unroll else self._cond_false_only(s.test, cur)
                 if s.orelse:
                     ex = self._seq(ex, lambda: self._block(s.orelse, cur))
                 res.extend(ex)
@@ -388,7 +394,7 @@ class Walker:
                 if const_true:
                     res.append(([Ev("cut", s)], ("cut",)))
                 return res
-            ent = [([Ev("loop", s, k)], NORMAL)] if const_true else self._seq(self._cond(s.test, True), lambda: [([Ev("loop", s, k)], NORMAL)])
+            ent = [([Ev("loop", s, k)], NORMAL)] if const_true else self._seq(self._cond(s.test, True, cur), lambda: [([Ev("loop", s, k)], NORMAL)])
             body = self._seq(ent, lambda: self._block(s.body, cur))
             nxt = None
             for evs, out in body:
@@ -406,7 +412,7 @@ class Walker:
         return iteration(0)
 
     def _s_For(self, s, cur):
-        head = self._expr(s.iter)
+        head = self._expr(s.iter, cur=cur)
 
         def iteration(k):
             res = []
@@ -442,7 +448,7 @@ class Walker:
     def _s_With(self, s, cur):
         outs = [([], NORMAL)]
         for it in s.items:
-            outs = self._seq(outs, lambda it=it: self._expr(it.context_expr))
+            outs = self._seq(outs, lambda it=it: self._expr(it.context_expr, cur=cur))
             outs = self._seq(outs, lambda it=it: [([Ev("with_enter", s, it)] + (
                 [Ev("bind", it.optional_vars, "with", it.context_expr)] if it.optional_vars is not None else []), NORMAL)])
         body = self._seq(outs, lambda: self._block(s.body, cur))
